@@ -180,6 +180,17 @@ def main():
                         if not np.array_equal(np.asarray(a0.data, dtype=float), np.asarray(x.data, dtype=float), equal_nan=True):
                             extra['failures'].append({'what': f'2-SFS entries changed by a {nm} save/load cycle',
                                                       'original': np.asarray(a0.data, dtype=float).tolist(), 'loaded': np.asarray(x.data, dtype=float).tolist()})
+                # a 2-SFS is saved, THEN edited in place / derived from (copy, fill_monomorphic), THEN the result is saved and loaded
+                s0 = pg.SFS2(np.arange(25, dtype=float).reshape(5, 5) / 3)
+                s0.to_json()
+                t1 = s0.fill_monomorphic(-1.0)
+                t2 = s0.copy(); t2.data[1, 2] = 99.0
+                s0.data[2, 2] = -5.0
+                for nm, x in (('derived by fill_monomorphic after a save', t1), ('copy edited after a save', t2), ('original edited in place after a save', s0)):
+                    y = pg.SFS2.from_json(x.to_json())
+                    if not np.array_equal(np.asarray(x.data, dtype=float), np.asarray(y.data, dtype=float), equal_nan=True):
+                        extra['failures'].append({'what': f'2-SFS {nm}: save/load returns other entries',
+                                                  'saved': np.asarray(x.data, dtype=float).tolist(), 'loaded': np.asarray(y.data, dtype=float).tolist()})
                 a = pg.SFS2(np.arange(16, dtype=float).reshape(4, 4) / 7)
                 b = pg.SFS2.from_json(a.to_json())
                 if not np.array_equal(a.data, b.data):
